@@ -154,7 +154,12 @@ def oracle_bad_gmm(c):
         if d == 1:
             covs = np.array([[[1.0]], [[-1.0]], [[1.0]]])
         else:
-            covs[1] = -np.eye(d)
+            # one clearly negative eigenvalue at a random place of the spectrum, in a random (or the canonical) basis
+            lam = rs.uniform(0.5, 3.0, size=d)
+            lam[rs.randint(d)] = -rs.uniform(0.3, 2.0)
+            Q = np.linalg.qr(rs.randn(d, d))[0] if rs.rand() < 0.6 else np.eye(d)
+            M_ = (Q * lam) @ Q.T
+            covs[rs.randint(K)] = (M_ + M_.T) / 2
     elif kind == "not_square":
         if d == 1:
             return {"nontrivial": False, "classes": ["skip"]}
